@@ -6,9 +6,12 @@
   zarr store (keys -> bytes)                                  `Store` : metadata documents present + finite map chunk key ↦ value
   zarr `Array.nchunks_initialized`                            `initialized` (expected chunk keys that are present)
   zarr write of one chunk (`array.write_empty_chunks`)        `Store.put`   (config from `GeneratedC09.writeEmptyChunks`)
-  cubed/storage/zarr.py  LazyZarrArray.create(mode)           `createArr`   (via stores/zarr_python_v3.py open_zarr_v3_array:
+  cubed/storage/zarr.py  LazyZarrArray.create(mode)           `createArr`, `createDocs`, `Store.createA`
+                                                                           (via stores/zarr_python_v3.py open_zarr_v3_array:
                                                                             create_array / ContainsArrayError / mode == "a";
-                                                                            open_group(mode) for structured dtypes)
+                                                                            open_group(mode) for structured dtypes; probed:
+                                                                            "w"/"w-" on an existing plain array raise, "w" on
+                                                                            an existing group deletes it)
   cubed/storage/zarr.py  LazyZarrArray.open  (mode "r+")      `Arr.openable`
   cubed/core/plan.py     create_zarr_array                    `createArr genMode` (mode literal from `GeneratedC09.createMode`)
   cubed/core/plan.py     create_zarr_arrays / _create_lazy_zarr_arrays
@@ -17,9 +20,12 @@
   cubed/core/plan.py     FinalizedPlan.execute (resume=True)  `firstRefusal` (all nodes are evaluated before anything runs), `resume`
   cubed/runtime/pipeline.py skip_node / visit_nodes           `skipNode`, `toRun`
   a task (one element of pipeline.mappable)                   `Task` : reads, stored chunks written (in order), function
-  executor running the DAG sequentially                       `runTask`, `runOp`, `runOps`, `trace`
+  executor running the DAG sequentially                       `runTask`, `runOp`, `runOps` (`runOpA`, `runOpsA` under mode "a"),
+                                                              `trace` (its write sequence, metadata documents included)
   any interleaving of chunk writes (threads / processes /     `Sched`, `runSched`, `ValidSched`
-  retries / backups), a crash = any prefix                    `List.take`
+  retries / backups; zarr also issues the stored-chunk
+  writes of ONE task concurrently, in no fixed order),
+  a crash = any prefix                                        `List.take`
 
   Assumptions of the model (not verified here): a chunk write is atomic (zarr LocalStore writes to a temporary file and
   renames; MemoryStore assigns a dict entry) — no torn chunks; `nchunks_initialized` counts exactly the expected chunk keys
@@ -281,9 +287,6 @@ def chunkStep (c : WriteCfg V) (s : Store K V) (t : Task K V) (k : K) : Store K 
 
 def runSched (c : WriteCfg V) (s : Store K V) (σ : Sched K V) : Store K V :=
   σ.foldl (fun acc st => chunkStep c acc st.1 st.2) s
-
-/-- the schedule of the sequential run of a task list. -/
-def seqSched (ts : List (Task K V)) : Sched K V := ts.flatMap (fun t => t.outs.map (fun k => (t, k)))
 
 /-! ## hypotheses on plans and schedules (established elsewhere: C05 single writer, C07 ordering) -/
 
